@@ -144,7 +144,8 @@ def _plan(prop, q, n):
     if prop == "C16":
         return [storm(CORE + TWIN, 60000 if q else 600000, n, 0, 24 if q else 40)]
     if prop == "C18":
-        return [sweep(instrumented(NORMAL), 1500 if q else 15000, n, D.MASK_ALL)]
+        return [sweep(instrumented(NORMAL), 1500 if q else 15000, n, D.MASK_ALL),
+                storm(instrumented(NORMAL), 10000 if q else 100000, n, 1, 24 if q else 40)]
     return []
 
 
